@@ -22,6 +22,9 @@ pub enum BOp {
     Observe(#[serde(with = "compat::fbits")] f64),
     Flush,
     Collect,
+    /// local paths: clone the local histogram and drop the clone at once (a clone starts empty, so
+    /// nothing may reach the shared histogram); a no-op on the other paths
+    CloneDrop,
 }
 #[derive(Serialize, Deserialize, Clone, Debug)]
 pub struct BucketPlan {
@@ -101,6 +104,7 @@ fn gen_plan(seed: u64) -> BucketPlan {
         match r.below(10) {
             0..=6 => ops.push(BOp::Observe(*r.pick(&pool))),
             7 => ops.push(BOp::Flush),
+            8 if r.chance(40) => ops.push(BOp::CloneDrop),
             _ => ops.push(BOp::Collect),
         }
     }
@@ -203,6 +207,16 @@ fn execute(plan: &BucketPlan, mode: Mode) -> RunOut {
                                     shared.sum += pending.sum;
                                     pending.sum = 0.0;
                                 }
+                            }
+                        }
+                        BOp::CloneDrop => {
+                            if let Some(l) = &local {
+                                let c = l.clone();
+                                drop(c);
+                            }
+                            if let Some(lv) = &lvec {
+                                let c = lv.clone();
+                                drop(c);
                             }
                         }
                         BOp::Collect => {
